@@ -312,6 +312,9 @@ func runC19(c *Check) {
 				continue
 			}
 			r, ok := edgeRel(iff, 0)
+			if ok && r.Op != token.EQL {
+				r, ok = edgeRel(iff, 1)
+			}
 			if !ok || r.Op != token.EQL {
 				continue
 			}
@@ -557,7 +560,26 @@ func runC19(c *Check) {
 				if !leaves {
 					continue
 				}
-				for _, x := range rootsAll(iff.Cond) {
+				// a loop controlled by a bool variable (`for running := true; running; {...}`): the exit
+				// depends on the tests that decide where the variable is set
+				conds := []ssa.Value{iff.Cond}
+				if phi, isPhi := normCond(iff.Cond).V.(*ssa.Phi); isPhi && body[phi.Block()] {
+					for i := range phi.Edges {
+						for x := phi.Block().Preds[i]; x != nil && body[x]; x = x.Idom() {
+							if ci, ok := lastIf(x); ok && x != b {
+								conds = append(conds, ci.Cond)
+							}
+							if x == h {
+								break
+							}
+						}
+					}
+				}
+				var rootVals []ssa.Value
+				for _, cv := range conds {
+					rootVals = append(rootVals, rootsAll(cv)...)
+				}
+				for _, x := range rootVals {
 					if call, ok := x.(*ssa.Call); ok {
 						n := calleeName(&call.Call)
 						if strings.HasSuffix(n, ".isStopping") || strings.HasSuffix(n, ".isStopped") {
